@@ -5,11 +5,12 @@ CONSTANTS
   MaxMsgs = 2
   LenMode = "bytes"
   IdDecode = "strict"
+  NullResult = "ok"
   Variants <- VariantsDef
   ChunkMax = 2
   AllCuts = TRUE
 INIT Init
 NEXT Next
 VIEW View
-INVARIANTS TypeOK ReadIsPrefixOfSent LengthCountsBytes Lossless MalformedGivesError LenientIsSafe NeverWaitsAfterEOF NeverWaitsAfterCompleteFrame ChunkingIrrelevant IdsPreserved
+INVARIANTS TypeOK ReadIsPrefixOfSent LengthCountsBytes Lossless MalformedGivesError LenientIsSafe NeverWaitsAfterEOF NeverWaitsAfterCompleteFrame ChunkingIrrelevant IdsPreserved PayloadsPreserved
 CHECK_DEADLOCK FALSE
